@@ -658,8 +658,10 @@ def decode_numpy(nc, mem, q, o):
 
 
 def decode_cases(nc, mem, p):
-    """result pointer merged over several paths -> [(guard, decoded)]"""
+    """result pointer merged over several paths -> [(guard, decoded)]; a result slot that was never written (every path raised) is 'no result'"""
     out = []
+    if p is None:
+        return [(z3.BoolVal(True), None)]
     for g, q in ptr_cases(p):
         if q.obj is None:
             out.append((g, None))
